@@ -1067,7 +1067,7 @@ def depth(t):
     return 1 + max(depth(t[1]), depth(t[2]))
 
 
-CMP_TOKENS = ("==", "!=", "<", ">", "<=", ">=", "contains")
+CMP_TOKENS = ("==", "!=", "<>", "<", ">", "<=", ">=", "contains")
 
 
 def ref_parse(text):
@@ -1118,7 +1118,7 @@ def ref_parse(text):
     return e
 
 
-CMP_NAMES = {"==": "eq", "!=": "ne", "<": "lt", ">": "gt", "<=": "le", ">=": "ge", "contains": "contains"}
+CMP_NAMES = {"==": "eq", "!=": "ne", "<>": "lg", "<": "lt", ">": "gt", "<=": "le", ">=": "ge", "contains": "contains"}
 
 
 def ref_value(t, vals):
@@ -1342,6 +1342,11 @@ def _mk_cmp(name, fam):
 
 
 _add("cmp_leaves", _mk_cmp, compile_family(F_CMP), 40, 150)
+# every comparison operator in every leaf position of the and/or trees over three leaves (all of them bind tighter than and/or)
+for _opn, _ops in (("eq", "=="), ("ne", "!="), ("lg", "<>"), ("lt", "<"), ("gt", ">"), ("le", "<="), ("ge", ">=")):
+    _leaf = {"a": "a %s 1" % _ops, "b": "2 %s b" % _ops, "c": "c %s d" % _ops}
+    _fam = [src(t, False, _leaf) for n in (2, 3) for t in trees(NAMES[:n])] + ["a %s 1 or not c %s d" % (_ops, _ops), "not (a %s 1 and 2 %s b)" % (_ops, _ops)]
+    _add("cmp_op_" + _opn, _mk_cmp, compile_family(_fam), 30, 90)
 _add("cmp_leaves_d4", _mk_cmp, compile_family(F_CMP_MORE), None, 300)
 
 # ---------------------------------------------------------------------------
